@@ -393,6 +393,10 @@ def direct_sections(rec, props: tuple, case: dict, out) -> bool:
                           "the whole-chart parse decoded the same lines", rcase, f"direct-entry:{fname}:raised")
             ok = False
             continue
+        if name in by_header and _form_counter % 4 == 2 and got == want and len(body) <= 400:
+            if not regridded(rec, props, case, name, body, be, by_header[name]):
+                ok = False
+                continue
         if got != want:
             keys = [k for k in want if got.get(k) != want[k]] if isinstance(want, dict) else []
             rec.violation("direct-section-entry", f"[{name}] body ({len(body)} lines) handed to its from_chart_lines as a {fname} decodes differently "
@@ -401,6 +405,52 @@ def direct_sections(rec, props: tuple, case: dict, out) -> bool:
         else:
             rec.cls(f"direct_section_entry:{fname}")
     return ok
+
+
+def regridded(rec, props: tuple, case: dict, name: str, body: list, be, pair) -> bool:
+    """A tempo map recombined through the public constructors: the FIRST event of the parsed map (tick 0, time 0, its tempo) inside a
+    `BPMEvents` of ANOTHER resolution - a song re-gridded by the application. The section's lines decoded against that map are judged
+    against the exact model of that map (one tempo, the new resolution): whatever a parsed tempo event carries along from the chart that
+    made it is not part of the new map. A TypeError from the constructor (signature changed) is skipped."""
+    import chartparse.instrument as I
+    import chartparse.sync as S
+
+    from vmon import harness, model, observe
+
+    i, d_ = pair
+    ttr = case["truth"].get("tracks", {}).get(f"{i}/{d_}")
+    if ttr is None or not case["truth"].get("tempos"):
+        return True
+    res = case["truth"]["resolution"]
+    res2 = 480 if res != 480 else 192
+    n0 = case["truth"]["tempos"][0][1]
+    try:
+        be2 = S.BPMEvents(events=[be[0]], resolution=res2)
+    except TypeError:
+        rec.mon("regridded_map_skipped")
+        return True
+    except Exception as e:  # noqa
+        rec.diag(f"regridded map refused: {harness.exc_str(e)}")
+        return True
+    tm2 = model.TempoMap(res2, [[0, n0]])
+    rec.ev()
+    rcase = {"text": case["text"], "truth": case["truth"], "direct_section": name, "regridded": res2}
+    try:
+        tr2 = I.InstrumentTrack.from_chart_lines(harness.Instrument[i], harness.Difficulty[d_], list(body), be2)
+        otr = observe.observe_track(tr2)
+    except Exception as e:  # noqa
+        rec.violation("direct-section-entry", f"[{name}] decoded against a one-tempo map built from the parsed map's first event with resolution {res2}: raised "
+                      f"{harness.exc_str(e)}", rcase, "regridded-map:raised")
+        return False
+    d2 = model.Diffs()
+    model.compare_track(d2, tm2, res2, f"{i}/{d_}", ttr, otr)
+    mine = [x for x in d2.items if x[0] in props or x[0] in ("C01", "C03")]
+    if mine:
+        rec.violation("direct-section-entry", f"[{name}] decoded against a map made of the parsed map's FIRST tempo event and resolution {res2} (a re-gridded song): "
+                      f"{mine[0][2]}", rcase, "regridded-map:differs")
+        return False
+    rec.cls("section_decoded_against_a_regridded_one_tempo_map")
+    return True
 
 
 def whole_charts(rec, props: tuple, seed: int, pid: str, shard_name: str, count: int, extra=None, on_ok=None, **kw) -> None:
@@ -502,4 +552,9 @@ def constructor_route(rec, props: tuple, case: dict, out, max_notes: int = 400) 
                 return False
             prev = ev
         rec.cls(f"notes_built_through_public_factories:hints_{form}")
+        if _ROUTE % 4 == 2 and case.get("sections"):
+            hname = model.header(i, d)
+            body = next((b for n_, b in case["sections"] if n_ == hname), None)
+            if body is not None and len(body) <= 600 and not regridded(rec, props, case, hname, body, be, (i, d)):
+                return False
     return True
